@@ -354,6 +354,48 @@ def poly1305_block_decoding(chk):
     chk.floor('poly1305 limbs', n, 18)
 
 
+def empty_chunk_is_identity(chk):
+    """"Any split of a message into successive calls yields the same bytes as a single call" includes empty chunks (CCM and EAX issue
+    them for short messages): a call with len == 0 must leave IV / counter / CBC-MAC value as they are, so no block-cipher core
+    operation may remain once len is fixed to 0.  Partial evaluation of every chunked entry point of the four portable AES
+    implementations and the two DES ones with len pinned to 0: the callees left are key expansion, endianness helpers and the
+    delegations big/small make to their own ctr / mac entry points (judged in turn)."""
+    import re
+    from .. import oblig, fold
+    R = 'empty-chunk-is-identity'
+    CORE = re.compile(r'(bitslice_(en|de)crypt|_ortho|_big_(en|de)crypt|_small_(en|de)crypt|process_block|br_des_(tab|ct)_process)')
+    n = 0
+    entries = []
+    for fam in ('aes_big', 'aes_small', 'aes_ct', 'aes_ct64'):
+        entries += [('src/symcipher/%s_ctrcbc.c' % fam, 'br_%s_ctrcbc_%s' % (fam, m)) for m in ('encrypt', 'decrypt', 'ctr', 'mac')]
+        entries += [('src/symcipher/%s_ctr.c' % fam, 'br_%s_ctr_run' % fam), ('src/symcipher/%s_cbcenc.c' % fam, 'br_%s_cbcenc_run' % fam),
+                    ('src/symcipher/%s_cbcdec.c' % fam, 'br_%s_cbcdec_run' % fam)]
+    for fam in ('des_tab', 'des_ct'):
+        entries += [('src/symcipher/%s_cbcenc.c' % fam, 'br_%s_cbcenc_run' % fam), ('src/symcipher/%s_cbcdec.c' % fam, 'br_%s_cbcdec_run' % fam)]
+    for src, fn in entries:
+        U = oblig.funit(src)
+        if fn not in U.funcs:
+            raise AnalysisBroken('%s vanished from %s' % (fn, src))
+        F = U.func(fn)
+        ps = F.f['params']
+        li = [k for k, p_ in enumerate(ps) if p_['ty'] == 'i64']
+        if not li:
+            raise AnalysisBroken('%s: no length parameter' % fn)
+        cal0 = set(c.get('callee') for c in F.calls() if c.get('callee') and not c['callee'].startswith('llvm.'))
+        if not any(CORE.search(c) for c in cal0) and not any(c.endswith(('_ctrcbc_ctr', '_ctrcbc_mac')) for c in cal0):
+            raise AnalysisBroken('%s: no block-cipher core call recognised among %s' % (fn, sorted(cal0)))
+        Fo = U.optimise(fn, [dict(kind='pin', n=ps[li[-1]]['n'], value=0, param=True)], tuple(cal0))
+        left = sorted(set(c.get('callee') for c in fold._reach_insts(Fo) if c['op'] == 'call' and c.get('callee') and CORE.search(c['callee'])))
+        n += 1
+        inst = '%s: a call with len == 0 performs no block-cipher operation' % fn
+        if not left:
+            chk.ok(R, inst, src)
+        else:
+            chk.violation(R, inst, src, 'with len == 0 the function still calls %s: the chaining state changes on an empty chunk, so a message split with an '
+                          'empty piece gives a different result' % ', '.join(left), key='%s %s' % (R, fn))
+    chk.floor('chunked cipher entry points', n, 32)
+
+
 def run(tier):
     chk = report.Check('C12', tier,
                        'Constant tables of the symmetric primitives compared with values generated from their standards (FIPS 197 S-box, inverse '
@@ -463,6 +505,7 @@ def run(tier):
     poly1305_block_decoding(chk)
     des_ede_schedule(chk)
     ghash_pclmul_tail(chk)
+    empty_chunk_is_identity(chk)
     from .. import lints as _l
     _l.tail_copy_from_running_pointer(chk, ('src/symcipher/', 'src/hash/'))
     _l.limb_split_consistent(chk, ['src/symcipher/'])
